@@ -218,6 +218,8 @@ struct OpRec {
     cancel_issued_at: Option<usize>,
     /// harness estimate: SQ was full when the cancel was issued (io_uring)
     cancel_sq_full: Option<(usize, u32)>,
+    /// submission count when the cancel was issued
+    cancel_mark: usize,
     /// SQE written but not yet submitted (harness estimate)
     queued: bool,
     /// CQEs estimated to sit in the CQ unseen (multishot / zero-copy)
@@ -276,6 +278,10 @@ struct World {
     need_notifier: bool,
     skip: bool,
     accepted: Vec<OwnedFd>,
+    /// number of submissions (`io_uring_enter`) so far, harness estimate
+    submits: usize,
+    /// poll-line count at the last `ready` of each slot
+    ready_at: Vec<usize>,
     /// connections made to a listener while no submitted accept was there to take them
     backlog: Vec<usize>,
 }
@@ -319,6 +325,8 @@ impl World {
             skip: false,
             accepted: vec![],
             backlog: vec![0; 8],
+            submits: 0,
+            ready_at: vec![0; 8],
         }
     }
 
@@ -390,6 +398,7 @@ impl World {
     /// a submission (`io_uring_enter`) is about to happen: everything written to the SQ reaches the kernel
     fn note_submit(&mut self) {
         self.sq_est = 0;
+        self.submits += 1;
         for o in &mut self.ops {
             if o.queued {
                 o.queued = false;
@@ -433,6 +442,7 @@ impl World {
     /// bookkeeping of a cancel that reaches `Driver::cancel`
     fn note_driver_cancel(&mut self, i: usize) {
         self.ops[i].cancel_issued_at = Some(self.polls);
+        self.ops[i].cancel_mark = self.submits;
         if self.iour() {
             if self.sq_est >= self.cap {
                 self.ops[i].cancel_sq_full = Some((self.sq_est as usize, self.cap));
@@ -631,6 +641,7 @@ impl World {
                     return "bad-op".into();
                 }
                 self.ever_ready[s] = true;
+                self.ready_at[s] = self.polls;
                 let iour = self.iour();
                 match slot_kind(s).unwrap() {
                     HKind::Rd => {
@@ -939,6 +950,7 @@ impl World {
             cancel_requested: false,
             cancel_issued_at: None,
             cancel_sq_full: None,
+            cancel_mark: 0,
             queued: false,
             undrained: 0,
             gate: None,
@@ -1082,7 +1094,7 @@ impl World {
                     );
                     self.ops[i].reported = true;
                 }
-            } else if !o.cancel_requested && o.kind == HKind::Rd && !self.written[o.slot].is_empty() && self.polls > 0 {
+            } else if !o.cancel_requested && o.kind == HKind::Rd && !self.written[o.slot].is_empty() && self.polls > self.ready_at[o.slot] {
                 // data is waiting on its descriptor: is it waiting for this op?
                 let waiting = self
                     .ops
@@ -1189,7 +1201,8 @@ impl World {
             }
             // a cancel()/drop(key)/cancel_token() call itself must never release an op the kernel may own
             if iour && ring == 1 && matches!(ph, PH_CANCEL | PH_KEYDROP | PH_TCANCEL) && o.pending && o.kind != HKind::Blk && !o.reported {
-                let could_be_done = self.ever_ready[o.slot] || o.kind == HKind::Zc;
+                let cancelled_and_submitted = o.cancel_issued_at.is_some() && o.cancel_sq_full.is_none() && self.submits > o.cancel_mark;
+                let could_be_done = self.ever_ready[o.slot] || o.kind == HKind::Zc || cancelled_and_submitted;
                 if !could_be_done {
                     ex.fail("C01:freed-while-inflight", format!("op {i}: storage released inside {} on a never-ready descriptor", phase_name(ph)));
                     o.reported = true;
